@@ -349,6 +349,7 @@ def run(ctx):
     for g in ("daily", "weekly"):
         for w in ({"a": 0.5, "b": 0.5}, {"a": 0.75, "b": -0.25}):
             extra.append({"tree": "fi_hedge", "stack": {"gate": g}, "fi_weights": w, "data": "d12", "alpha": "exact", "late": False, "integer": False, "capital": 0.0, "rng": 0, "fee": None, "spread": None, "mult_d": 2})
+            extra.append({"tree": "fi_hedge", "stack": {"gate": g}, "fi_weights": w, "data": "d12", "alpha": "exact", "late": False, "integer": True, "capital": 0.0, "rng": 0, "fee": None, "spread": None, "mult_d": 2})  # (par-weighted securities trade fractional quantities in whole-unit mode too)
     fam = fam + extra
     kinds = ["py"] if ctx.tier == "quick" else ["py", "cy"]
     ctx.bounds = {"runs": len(fam), "builds": kinds}
